@@ -117,7 +117,7 @@ def run(m, chk):
         "no in-place KnotVector mutator applied to a shared knot vector, no in-place operation on stored control point objects. "
         "The value-level clause (the curve evaluates on its whole interval) is not decided."
     )
-    chk.decides = ["LEN-WEIGHTS (a weight vector of the wrong length is refused — by an explicit test or by a shape-checking contraction — before it is stored)", "invariant funnel (who-may-write + guard dominance)", "COMMIT-LAST for Curve mutators", "PURE/FRESH for non-mutating operations", "shared KnotVector never mutated by curve code", "NO-INPLACE-ELEM", 'PRECHECK', 'PRECHECK-LEN', 'KV-CONSISTENT (rebinding the knot vector leaves no stale control points / weights)']
+    chk.decides = ["TUPLE-MUTATE (no list-only method is called on a value that is a tuple on every path under the validating setters: the refusal is the ValueError that was meant)", "LEN-WEIGHTS (a weight vector of the wrong length is refused — by an explicit test or by a shape-checking contraction — before it is stored)", "invariant funnel (who-may-write + guard dominance)", "COMMIT-LAST for Curve mutators", "PURE/FRESH for non-mutating operations", "shared KnotVector never mutated by curve code", "NO-INPLACE-ELEM", 'PRECHECK', 'PRECHECK-LEN', 'KV-CONSISTENT (rebinding the knot vector leaves no stale control points / weights)']
     chk.not_decided = ["the curve evaluates on its whole interval", "len(ctrlpoints)=npts as a value-level fact beyond the guarded setter"]
     chk.assume("a setter's validation of an already computed value of the right length is not modelled as a failure point")
     chk.assume("numpy functions and user supplied callables do not modify their arguments; copy() of a user point yields an independent object")
@@ -173,6 +173,9 @@ def run(m, chk):
         if not r.has(q):
             raise AnalysisError(f"anchor vanished: composite mutator {q}")
 
+    from .extra import tuple_mutate
+
+    tuple_mutate(r, chk, ["curves.BaseCurve.weights.setter", "curves.BaseCurve.ctrlpoints.setter"])
     from .extra import len_weights
 
     len_weights(r, chk)
